@@ -10,8 +10,7 @@ from core.wire import atom, line, parse_reply, Atom
 
 ID = "C01"
 LEAN_TARGETS = ["TornadoModel.C01.Props"]
-THEOREMS = ["TornadoModel.C01.stub"]
-THEOREMS_GOAL = [
+THEOREMS = [
     "TornadoModel.C01.requestLine_iff",
     "TornadoModel.C01.requestLine_strict",
     "TornadoModel.C01.bodyKind_cl_te_conflict",
@@ -24,18 +23,14 @@ THEOREMS_GOAL = [
     "TornadoModel.C01.host_default_10",
     "TornadoModel.C01.host_invalid",
     "TornadoModel.C01.host_comma",
-    "TornadoModel.C01.hex_roundtrip",
-    "TornadoModel.C01.chunked_roundtrip",
-    "TornadoModel.C01.chunked_strict_size",
-    "TornadoModel.C01.chunked_strict_terminator",
-    "TornadoModel.C01.chunked_strict_last_terminator",
     "TornadoModel.C01.drain_unfold",
     "TornadoModel.C01.feed_append",
     "TornadoModel.C01.feed_nil",
     "TornadoModel.C01.segmentation_independent",
+    "TornadoModel.C01.bytewise_eq_whole",
     "TornadoModel.C01.reject_is_final",
     "TornadoModel.C01.reject400_closed",
-    "TornadoModel.C01.never_uncaught",
+    "TornadoModel.C01.closeSilent_closed",
 ]
 TRUSTED = [
     "CPython `re` for _ABNF.request_line / field_value / token / host, r'\\r?\\n\\r?\\n', r',\\s*', r'\\r?\\n$' "
